@@ -34,3 +34,20 @@ pub fn arc_str_clone_same(a: &std::sync::Arc<str>) -> std::sync::Arc<str> {
 pub fn smolstr_clone(s: &smol_str::SmolStr) -> smol_str::SmolStr {
     smol_str::SmolStr::new_inline(s.as_str())
 }
+
+/// `Decimal::from_f64` on the exact-rational model: defined on the small non-negative integers the harnesses use
+/// for public-trade prices (the real conversion returns the same value for them), `None` otherwise.
+pub fn decimal_from_f64(n: f64) -> Option<rust_decimal::Decimal> {
+    if n >= 0.0 && n < 256.0 {
+        let k = n as u8;
+        if k as f64 == n { Some(rust_decimal::Decimal::from(k)) } else { None }
+    } else {
+        None
+    }
+}
+
+/// `alloc::fmt::format` (every `format!` in error paths) -> empty string: message text is never the subject of a property
+/// and formatting machinery is among the most expensive code to execute symbolically.
+pub fn fmt_format_empty(_: core::fmt::Arguments<'_>) -> String {
+    String::new()
+}
